@@ -251,6 +251,24 @@ async fn try_forward_api_call(
             }
             tx.send(Ok(imported_values)).ok();
         }
+        Some(WbFunction::Disconnected(client_id, remote_addr)) => {
+            // the end of a session buries the client's grave goods and publishes its last will:
+            // changes of user keys like any other, which the followers have to see as well
+            let (grave_goods, last_will) = worterbuch.session_end_effects(&client_id);
+            for pattern in grave_goods {
+                forward_to_followers(ClientWriteCommand::PDelete(pattern), client_write_txs, dead)
+                    .await;
+            }
+            for kvp in last_will {
+                forward_to_followers(
+                    ClientWriteCommand::Set(kvp.key, kvp.value, true),
+                    client_write_txs,
+                    dead,
+                )
+                .await;
+            }
+            process_api_call(worterbuch, WbFunction::Disconnected(client_id, remote_addr)).await;
+        }
         Some(function) => {
             // TODO check if processing was successful and only then forward api call
             forward_api_call(client_write_txs, dead, &function, true).await;
